@@ -1,3 +1,4 @@
+import re
 from typing import ClassVar
 
 import rogw.tranp.syntax.node.definition as defs
@@ -76,7 +77,7 @@ class LiteralEvaluator:
 				elif isinstance(left, int) and isinstance(right, int):
 					left = int(self._calc(left, op, right)) if op in LiteralEvaluator.ArthmeticOps else self._bitwise(left, op, right)
 				elif isinstance(left, str) and isinstance(right, str) and op == '+':
-					assert self._allow_string(left) and self._allow_string(right)
+					assert self._allow_string(left) and self._allow_string(right) and not self._joins_escape(left, right)
 					left = self._cat(left, right)
 				else:
 					assert False
@@ -146,6 +147,19 @@ class LiteralEvaluator:
 
 		return len(string) >= 2 and string[0] in quotes and string[-1] in quotes
 	
+	def _joins_escape(self, left: str, right: str) -> bool:
+		"""文字列結合によってエスケープシーケンスが変化するか判定
+
+		Args:
+			left: 文字列(左)
+			right: 文字列(右)
+		Returns:
+			True = 変化する
+		Note:
+			8進エスケープ(1-2桁)で終わる文字列の直後に8進数字が続くと、別の1文字として解釈される (例: '\\1' + '2' -> '\\12')
+		"""
+		return re.search(r'(?<!\\)(?:\\\\)*\\[0-7]{1,2}$', left[1:-1]) is not None and re.match(r'[0-7]', right[1:-1]) is not None
+
 	def _cat(self, left: str, right: str) -> str:
 		"""文字列結合
 
